@@ -44,6 +44,7 @@ import (
 	"log"
 	"net"
 	"os"
+	"strings"
 	"sync"
 	"sync/atomic"
 	"time"
@@ -549,7 +550,10 @@ func (server *SugarDB) handleConnection(conn net.Conn) {
 		}
 		if err != nil {
 			log.Println(err)
-			if _, err = w.Write([]byte(fmt.Sprintf("-Error %s\r\n", err.Error()))); err != nil {
+			// An error reply is a single line: line breaks in the message (e.g. from a key name that is
+			// quoted in it) would split it into several frames.
+			message := strings.NewReplacer("\r", " ", "\n", " ").Replace(err.Error())
+			if _, err = w.Write([]byte(fmt.Sprintf("-Error %s\r\n", message))); err != nil {
 				log.Println(err)
 			}
 			continue
